@@ -3,7 +3,10 @@
 usage: drivers.py <driver>   stdin: JSON inputs    stdout: last line JSON {"reproduced": bool, "detail": str}
 Each driver runs the *real* pyoma2 code and checks the property statement natively."""
 import json
+import os
 import sys
+
+os.environ.setdefault("TQDM_DISABLE", "1")
 import warnings
 
 import numpy as np
@@ -971,7 +974,218 @@ def c06_fdd(inp):
     return {"reproduced": False, "detail": "SD_svalsvec is a faithful per-line decomposition on 60 matrices; FDD_mpe picks the dominant in-band line on 300 random spectra"}
 
 
-DRIVERS = {"c06_fdd": c06_fdd, "c20_plots": c20_plots, "c18_indicators": c18_indicators, "c13_sdest": c13_sdest, "c04_preger": c04_preger, "c03_split": c03_split, "c14_sequences": c14_sequences, "c16_dialog": c16_dialog, "c02_merge": c02_merge, "c09_run": c09_run, "c10_run": c10_run, "c10_fn": c10_fn}
+# ----------------------------------------------------------------------------------
+# C11: modal parameter extraction at an explicit order / automatic order
+# ----------------------------------------------------------------------------------
+
+def _c11_tables(rng, with_missing=True):
+    """crafted pole tables: physical modes near the requested frequencies (jittered, sometimes missing at an order),
+    spurious poles elsewhere, NaN padding; every cell carries distinct Xi/Phi/cov tags so a mixture is visible"""
+    nreq = int(rng.randint(1, 5))
+    freq_ref = np.sort(rng.uniform(1.0, 40.0, nreq))
+    while nreq > 1 and np.min(np.diff(freq_ref) / freq_ref[1:]) < 0.35:
+        freq_ref = np.sort(rng.uniform(1.0, 40.0, nreq))
+    rtol = float(rng.choice([0.01, 0.05, 0.1]))
+    n1 = int(rng.randint(3, 9))
+    n0 = int(rng.randint(nreq + 1, nreq + 6))
+    L = int(rng.randint(2, 5))
+    Fn = np.full((n0, n1), np.nan)
+    Lab = np.zeros((n0, n1), dtype=int)
+    for o in range(n1):
+        rows = list(rng.permutation(n0))
+        for j, f in enumerate(freq_ref):
+            if with_missing and rng.rand() < 0.3:
+                continue
+            # inside the band most of the time, sometimes just outside
+            dev = rng.uniform(-0.9, 0.9) * rtol * f if rng.rand() < 0.8 else rng.choice([-1, 1]) * rng.uniform(1.3, 3.0) * rtol * f
+            r = rows.pop()
+            Fn[r, o] = f + dev
+            Lab[r, o] = 1 if rng.rand() < 0.8 else 0
+        for _ in range(int(rng.randint(0, len(rows) + 1))):
+            r = rows.pop()
+            Fn[r, o] = rng.uniform(0.5, 45.0)       # spurious
+            Lab[r, o] = 1 if rng.rand() < 0.3 else 0
+        if np.all(np.isnan(Fn[:, o])):
+            Fn[0, o] = rng.uniform(0.5, 45.0)
+    tag = np.arange(n0 * n1, dtype=float).reshape(n0, n1)
+    Xi = 0.001 * (tag + 1)
+    Phi = (tag[:, :, None] * 10 + np.arange(L)[None, None, :]) * (1 + 0.5j)
+    Fc, Xc, Pc = 1e-3 * (tag + 1), 1e-5 * (tag + 1), 1e-2 * (tag[:, :, None] * 10 + np.arange(L)[None, None, :] + 1)
+    Xi = np.where(np.isnan(Fn), np.nan, Xi)
+    return freq_ref, rtol, Fn, Xi, Phi, Lab, (Fc, Xc, Pc)
+
+
+def _c11_expected(freq_ref, order_of, rtol, Fn, Xi, Phi, covs):
+    """the property's reading at explicit orders"""
+    out = {"Fn": [], "Xi": [], "Phi": [], "Fc": [], "Xc": [], "Pc": []}
+    for j, f in enumerate(freq_ref):
+        o = order_of(j)
+        r = int(np.nanargmin(np.abs(Fn[:, o] - f)))
+        if abs(Fn[r, o] - f) <= 1e-8 + rtol * abs(f):
+            out["Fn"].append(Fn[r, o]); out["Xi"].append(Xi[r, o]); out["Phi"].append(Phi[r, o, :])
+            if covs is not None:
+                out["Fc"].append(covs[0][r, o]); out["Xc"].append(covs[1][r, o]); out["Pc"].append(covs[2][r, o, :])
+    return out
+
+
+def _c11_cmp(what, got, exp, ctx):
+    Fn, Xi, Phi = got[0], got[1], got[2]
+    eFn, eXi = np.array(exp["Fn"]), np.array(exp["Xi"])
+    ePhi = np.array(exp["Phi"]).T if len(exp["Phi"]) else np.array([])
+    if np.shape(Fn) != eFn.shape or not np.allclose(Fn, eFn, equal_nan=True):
+        return f"{what}: returned frequencies {np.round(np.asarray(Fn, float), 4).tolist()} but the poles closest to and within tolerance of the requests are {np.round(eFn, 4).tolist()} ({ctx})"
+    if np.shape(Xi) != eXi.shape or not np.allclose(Xi, eXi, equal_nan=True):
+        return f"{what}: damping ratios are not those of the returned poles ({ctx})"
+    if np.shape(Phi) != ePhi.shape or not np.allclose(Phi, ePhi, equal_nan=True):
+        return f"{what}: mode shapes are not those of the returned poles ({ctx})"
+    if len(got) > 4 and got[4] is not None:
+        for nm, g, e in (("Fn_cov", got[4], np.array(exp["Fc"])), ("Xi_cov", got[5], np.array(exp["Xc"])),
+                         ("Phi_cov", got[6], np.array(exp["Pc"]).T if len(exp["Pc"]) else np.array([]))):
+            if np.shape(g) != e.shape or not np.allclose(g, e, equal_nan=True):
+                return f"{what}: {nm} is not that of the returned poles ({ctx})"
+    return None
+
+
+def _c11_findmin_expected(freq_ref, rtol, band, Fn, Lab, stable):
+    """lowest order at which every requested frequency has exactly one stable pole within its band"""
+    for o in range(Fn.shape[1]):
+        rows = []
+        for f in freq_ref:
+            lo, hi = band(f)
+            cand = [r for r in range(Fn.shape[0]) if Lab[r, o] == stable and not np.isnan(Fn[r, o]) and lo <= Fn[r, o] <= hi]
+            if len(cand) != 1:
+                rows = None
+                break
+            rows.append(cand[0])
+        if rows is not None:
+            return o, rows
+    return None, None
+
+
+def c11_mpe(inp):
+    from pyoma2.functions import plscf, ssi
+    which = inp.get("which", "all")
+    rng = np.random.RandomState(int(inp.get("seed", 11)))
+    ntr = int(inp.get("trials", 400))
+    for trial in range(ntr):
+        freq_ref, rtol, Fn, Xi, Phi, Lab, covs = _c11_tables(rng)
+        n1 = Fn.shape[1]
+        o_int = int(rng.randint(0, n1))
+        o_list = [int(x) for x in rng.randint(0, n1, len(freq_ref))]
+        ctx = f"freq_ref={np.round(freq_ref, 4).tolist()}, rtol={rtol}, trial {trial}"
+        if which in ("all", "ssi", "ssi_int"):
+            for wc in (False, True):
+                kw = dict(Fn_cov=covs[0], Xi_cov=covs[1], Phi_cov=covs[2]) if wc else {}
+                try:
+                    got = ssi.SSI_mpe(list(freq_ref), Fn, Xi, Phi, o_int, rtol=rtol, **kw)
+                except Exception as e:      # noqa: BLE001
+                    return {"reproduced": True, "detail": f"SSI_mpe(order={o_int}) raised {type(e).__name__}: {e} ({ctx})"}
+                msg = _c11_cmp(f"SSI_mpe(order={o_int}{', cov' if wc else ''})", got, _c11_expected(freq_ref, lambda j: o_int, rtol, Fn, Xi, Phi, covs if wc else None), ctx + f", column={np.round(Fn[:, o_int], 4).tolist()}")
+                if msg:
+                    return {"reproduced": True, "detail": msg}
+                if got[3] != o_int:
+                    return {"reproduced": True, "detail": f"SSI_mpe(order={o_int}): order_out={got[3]}"}
+        if which in ("all", "ssi", "ssi_list"):
+            try:
+                got = ssi.SSI_mpe(list(freq_ref), Fn, Xi, Phi, list(o_list), rtol=rtol, Fn_cov=covs[0], Xi_cov=covs[1], Phi_cov=covs[2])
+            except Exception as e:      # noqa: BLE001
+                return {"reproduced": True, "detail": f"SSI_mpe(order={o_list}) raised {type(e).__name__}: {e} ({ctx})"}
+            msg = _c11_cmp(f"SSI_mpe(order={o_list})", got, _c11_expected(freq_ref, lambda j: o_list[j], rtol, Fn, Xi, Phi, covs), ctx)
+            if msg:
+                return {"reproduced": True, "detail": msg}
+            if list(np.asarray(got[3]).tolist()) != o_list:
+                return {"reproduced": True, "detail": f"SSI_mpe(order={o_list}): order_out={got[3]}"}
+        if which in ("all", "plscf", "plscf_int"):
+            try:
+                got = plscf.pLSCF_mpe(list(freq_ref), Fn, Xi, Phi, o_int, rtol=rtol)
+            except Exception as e:      # noqa: BLE001
+                return {"reproduced": True, "detail": f"pLSCF_mpe(order={o_int}) raised {type(e).__name__}: {e} ({ctx})"}
+            msg = _c11_cmp(f"pLSCF_mpe(order={o_int})", got, _c11_expected(freq_ref, lambda j: o_int, rtol, Fn, Xi, Phi, None), ctx + f", column={np.round(Fn[:, o_int], 4).tolist()}")
+            if msg:
+                return {"reproduced": True, "detail": msg}
+            if got[3] != o_int:
+                return {"reproduced": True, "detail": f"pLSCF_mpe(order={o_int}): order_out={got[3]}"}
+        if which in ("all", "plscf", "plscf_list"):
+            try:
+                got = plscf.pLSCF_mpe(list(freq_ref), Fn, Xi, Phi, list(o_list), rtol=rtol)
+            except Exception as e:      # noqa: BLE001
+                return {"reproduced": True, "detail": f"pLSCF_mpe(order={o_list}) raised {type(e).__name__}: {e} ({ctx})"}
+            msg = _c11_cmp(f"pLSCF_mpe(order={o_list})", got, _c11_expected(freq_ref, lambda j: o_list[j], rtol, Fn, Xi, Phi, None), ctx)
+            if msg:
+                return {"reproduced": True, "detail": msg}
+            if [int(x) for x in np.asarray(got[3]).tolist()] != o_list:
+                return {"reproduced": True, "detail": f"pLSCF_mpe(order={o_list}): order_out={got[3]}"}
+        if which in ("all", "ssi", "ssi_findmin"):
+            # SSI_mpe 'find_min': bands are [f - rtol, f + rtol] in the code; the property states a relative tolerance
+            try:
+                got = ssi.SSI_mpe(list(freq_ref), Fn, Xi, Phi, "find_min", Lab=Lab, rtol=rtol, Fn_cov=covs[0], Xi_cov=covs[1], Phi_cov=covs[2])
+            except Exception as e:      # noqa: BLE001
+                return {"reproduced": True, "detail": f"SSI_mpe('find_min') raised {type(e).__name__}: {e} ({ctx})"}
+            o, rows = _c11_findmin_expected(freq_ref, rtol, lambda f: (f - rtol * abs(f) - 1e-8, f + rtol * abs(f) + 1e-8), Fn, Lab, 1)
+            if o is None:
+                if got[3] is not None or np.size(got[0]):
+                    return {"reproduced": True, "detail": f"SSI_mpe('find_min'): no order qualifies but order_out={got[3]}, Fn={np.asarray(got[0]).tolist()} ({ctx})"}
+            else:
+                if got[3] != o:
+                    return {"reproduced": True, "detail": f"SSI_mpe('find_min'): reported order {got[3]}, the lowest order with exactly one stable pole within rtol of every request is {o} ({ctx}, Fn_pol columns {got[3]}/{o}: "
+                                                          f"{None if got[3] is None else np.round(Fn[:, got[3]], 3).tolist()} / {np.round(Fn[:, o], 3).tolist()}, Lab {Lab[:, o].tolist()})"}
+                exp = {"Fn": [Fn[r, o] for r in rows], "Xi": [Xi[r, o] for r in rows], "Phi": [Phi[r, o, :] for r in rows],
+                       "Fc": [covs[0][r, o] for r in rows], "Xc": [covs[1][r, o] for r in rows], "Pc": [covs[2][r, o, :] for r in rows]}
+                msg = _c11_cmp("SSI_mpe('find_min')", got, exp, ctx)
+                if msg:
+                    return {"reproduced": True, "detail": msg}
+    return {"reproduced": False, "detail": f"extraction agrees with the property on {ntr} crafted tables ({which})"}
+
+
+
+def c11_plscf_findmin(inp):
+    """pLSCF_mpe(order='find_min'): named claims, each checked on its own crafted tables (bounded stand-in)"""
+    from pyoma2.functions import plscf
+    rng = np.random.RandomState(int(inp.get("seed", 12)))
+    ntr = int(inp.get("trials", 300))
+    fails = {}
+
+    def run(freq_ref, Fn, Xi, Phi, Lab, rtol):
+        deltaf = float(rtol * np.max(freq_ref) * 1.5)       # wide absolute band: the relative tolerance is the binding one
+        return plscf.pLSCF_mpe(list(freq_ref), Fn, Xi, Phi, "find_min", Lab=Lab, deltaf=deltaf, rtol=rtol)
+
+    def note(claim, detail):
+        fails.setdefault(claim, detail)
+    for trial in range(ntr):
+        freq_ref, rtol, Fn, Xi, Phi, Lab, covs = _c11_tables(rng)
+        ctx = f"freq_ref={np.round(freq_ref, 4).tolist()}, rtol={rtol}, trial {trial}"
+        band = lambda f: (f - rtol * abs(f) - 1e-8, f + rtol * abs(f) + 1e-8)      # noqa: E731
+        o, rows = _c11_findmin_expected(freq_ref, rtol, band, Fn, Lab, 1)
+        n1 = Fn.shape[1]
+        try:
+            got1 = run(freq_ref, Fn, Xi, Phi, Lab, rtol)                      # labels as gen.SC_apply writes them (1 = stable)
+            got = run(freq_ref, Fn, Xi, Phi, np.where(Lab == 1, 7, 0), rtol)  # the same poles relabelled 7
+        except Exception as e:      # noqa: BLE001
+            note("find_min does not raise", f"pLSCF_mpe('find_min') raised {type(e).__name__}: {e} ({ctx})")
+            continue
+        same = got1[3] == got[3] and all(np.shape(a) == np.shape(b) and np.allclose(a, b, equal_nan=True) for a, b in zip(got1[:3], got[:3]))
+        if not same and o is not None:
+            note("stable poles are those labelled 1 by SC_apply", f"with the labels of gen.SC_apply (1 = stable) order_out={got1[3]}, Fn={np.round(np.asarray(got1[0], float), 3).tolist()}; "
+                 f"with the same poles relabelled 7 order_out={got[3]}, Fn={np.round(np.asarray(got[0], float), 3).tolist()} ({ctx})")
+        # the remaining claims are checked in the routine's own label convention (7 = stable)
+        if o is None:
+            if got[3] is not None or np.size(got[0]):
+                note("no order qualifies -> nothing returned", f"no order qualifies but order_out={got[3]}, Fn={np.round(np.asarray(got[0], float), 3).tolist()} ({ctx})")
+            continue
+        claim = "qualifying order is the last one" if o == n1 - 1 else "lowest qualifying order"
+        if got[3] != o:
+            note(claim, f"reported order {got[3]}, the lowest order with exactly one stable pole within rtol of every request is {o} of {n1} ({ctx})")
+            continue
+        exp = {"Fn": [Fn[r, o] for r in rows], "Xi": [Xi[r, o] for r in rows], "Phi": [Phi[r, o, :] for r in rows]}
+        msg = _c11_cmp("pLSCF_mpe('find_min')", got, exp, ctx)
+        if msg:
+            note("parameters of the reported order", msg)
+    fl = [{"claim": k, "detail": v} for k, v in sorted(fails.items())]
+    return {"reproduced": bool(fl), "failures": fl,
+            "detail": "; ".join(f"{x['claim']}: {x['detail']}" for x in fl)[:1500] if fl else f"pLSCF find_min agrees with the property on {ntr} crafted tables"}
+
+
+DRIVERS = {"c11_plscf_findmin": c11_plscf_findmin, "c11_mpe": c11_mpe, "c06_fdd": c06_fdd, "c20_plots": c20_plots, "c18_indicators": c18_indicators, "c13_sdest": c13_sdest, "c04_preger": c04_preger, "c03_split": c03_split, "c14_sequences": c14_sequences, "c16_dialog": c16_dialog, "c02_merge": c02_merge, "c09_run": c09_run, "c10_run": c10_run, "c10_fn": c10_fn}
 
 
 def main():
